@@ -504,6 +504,106 @@ theorem c20_gen_Address_Valid_eq (a : Str) : Gen.C20.Address_Valid a = some (val
   | [_] => simp [len]
   | _ :: _ :: _ :: _ => simp [len]; omega
 
+/-- `Address.ConnType` as translated = the model's `connType` (`none` = index panic on both sides) -/
+theorem c20_gen_Address_ConnType_eq (a : Str) : Gen.C20.Address_ConnType a = connType a := by
+  unfold Gen.C20.Address_ConnType connType
+  simp only [c20_gen_Address_Valid_eq, c20_gen_connType_eq, c20_gen_consts.2.2.2]
+  cases valid a <;> simp [idx]
+  cases (split a)[0]? <;> simp
+
+/-- `Address.NetworkAddress` as translated = the model's `networkAddress` -/
+theorem c20_gen_Address_NetworkAddress_eq (a : Str) : Gen.C20.Address_NetworkAddress a = networkAddress a := by
+  unfold Gen.C20.Address_NetworkAddress networkAddress
+  simp only [c20_gen_Address_Valid_eq]
+  cases valid a <;> simp [idx]
+  cases (split a)[1]? <;> simp
+
+/-- `Address.Host` as translated = the model's `host` -/
+theorem c20_gen_Address_Host_eq (a : Str) : Gen.C20.Address_Host a = host a := by
+  unfold Gen.C20.Address_Host host
+  simp only [c20_gen_Address_NetworkAddress_eq]
+  cases networkAddress a with
+  | none => simp
+  | some na =>
+    by_cases h : na = []
+    · simp [h]
+    · simp [h]
+      cases splitHostPort na with
+      | none => simp
+      | some x => simp
+
+/-- `Address.Port` as translated = the model's `port` -/
+theorem c20_gen_Address_Port_eq (a : Str) : Gen.C20.Address_Port a = port a := by
+  unfold Gen.C20.Address_Port port
+  simp only [c20_gen_Address_NetworkAddress_eq]
+  cases networkAddress a with
+  | none => simp
+  | some na =>
+    by_cases h : na = []
+    · simp [h]
+    · simp [h]
+      cases splitHostPort na with
+      | none => simp
+      | some x => simp
+
+/-- `Address.IsHostname` as translated = the model's `isHostname` -/
+theorem c20_gen_Address_IsHostname_eq (a : Str) : Gen.C20.Address_IsHostname a = isHostname a := by
+  unfold Gen.C20.Address_IsHostname isHostname
+  simp only [c20_gen_Address_Host_eq, c20_gen_validHostname_eq]
+  cases host a <;> simp
+
+/-- `GlobalBind` (struct.go) as translated = the model's `globalBind` (it cannot panic: no panic layer) -/
+theorem c20_gen_GlobalBind_eq (s : Str) : R.ofGen (some (Gen.C20.GlobalBind s)) = globalBind s := by
+  unfold Gen.C20.GlobalBind globalBind
+  cases splitHostPort s with
+  | none => simp [R.ofGen]
+  | some x => simp [R.ofGen]
+
+/-- `getListenAddress` (tcp.go) as translated = the model's `getListenAddress`: `strings.Split(listenAddr, ":")`
+has one part exactly when there is no colon, and `splitted[0]` is then the whole override -/
+theorem c20_gen_getListenAddress_eq (a l : Str) :
+    R.ofGen (Gen.C20.getListenAddress a l) = getListenAddress a l := by
+  unfold Gen.C20.getListenAddress getListenAddress
+  simp only [c20_gen_Address_NetworkAddress_eq]
+  cases networkAddress a with
+  | none => by_cases hl : l = [] <;> simp [hl, R.ofGen]
+  | some na =>
+    by_cases hl : l = []
+    · simp [hl, ← c20_gen_GlobalBind_eq]
+    · have hlb : (l == []) = false := by simpa using hl
+      simp only [hlb, hl, Bool.false_eq_true, if_false]
+      cases hshp : splitHostPort na with
+      | none => simp [R.ofGen]
+      | some x =>
+        obtain ⟨h0, p⟩ := x
+        dsimp only
+        by_cases hc : l.contains 58 = true
+        · have hmem : 58 ∈ l := by simpa using hc
+          have hlen : (len (splitByte 58 l) == 1) = false := by
+            have hne : ¬ (splitByte 58 l).length = 1 := fun e => (splitByte_length_one.mp e) hmem
+            simp [len]; omega
+          simp only [hlen, Bool.false_and, Bool.false_eq_true, if_false, hc]
+          cases splitHostPort l with
+          | none => simp [R.ofGen]
+          | some y =>
+            obtain ⟨hl', pl'⟩ := y
+            by_cases h1 : hl' = [] <;> by_cases h2 : pl' = [] <;> simp [R.ofGen, h1, h2]
+        · have hnm : 58 ∉ l := by simpa using hc
+          have hcf : l.contains 58 = false := by simpa using hc
+          have hsp : splitByte 58 l = [l] := splitByte_nomem hnm
+          simp only [hsp, hcf]
+          by_cases hp : p = []
+          · simp [hp, len]
+            cases splitHostPort l with
+            | none => simp [R.ofGen]
+            | some y =>
+              obtain ⟨hl', pl'⟩ := y
+              by_cases h1 : hl' = [] <;> by_cases h2 : pl' = [] <;> simp [R.ofGen, h1, h2]
+          · simp [hp, len, idx]
+            cases splitHostPort (l ++ 58 :: p) with
+            | none => simp [R.ofGen]
+            | some y => simp [R.ofGen]
+
 end GenEq
 
 /-! ### the code regions the model stands for
